@@ -104,6 +104,17 @@ def strat_load(draw, tier):
                 if (c, p) not in used and [c[0], c[1], p] not in pre]
         picks = draw(st.lists(st.sampled_from(free), min_size=1, max_size=3,
                               unique=True)) if free else []
+        if draw(st.booleans()):
+            # exactly the chips the first binary went to, other cores
+            chips0 = [tuple(map(int, k.split(",")))
+                      for k in sorted(amap[0]["targets"])]
+            same = []
+            for c in chips0:
+                ps = [p for cc, p in free if cc == c]
+                if ps:
+                    same.append((c, draw(st.sampled_from(ps))))
+            if len(same) == len(chips0):
+                picks = same
         if picks:
             second = {"size": 4 * draw(st.integers(1, 2 * buf // 4)),
                       "fill": draw(st.integers(0, 255)),
@@ -111,6 +122,7 @@ def strat_load(draw, tier):
                       "app_id": draw(st.sampled_from([17, 200]))}
     return {"buffer": buf, "w": w, "map": amap, "miss": miss,
             "second": second,
+            "vcpu_bases": draw(st.integers(0, 2)) == 0,
             "app_id": draw(st.sampled_from([66, 1, 255, 30])),
             # the flag is also given the way C-minded callers give it (0 / 1)
             "wait": draw(st.sampled_from([False, False, True, None, 0, 1])),
@@ -133,6 +145,11 @@ def check_load(case):
     from rig.machine_control.machine_controller import SpiNNakerLoadingError
     m = scamp.Machine(case["w"], case["w"],
                       buffer_size=case["buffer"]).populate()
+    if case.get("vcpu_bases"):
+        # the per-core blocks live at a chip-specific address
+        for i, c in enumerate(sorted(m.chips.values(),
+                                     key=lambda c: (c.x, c.y))):
+            c.vcpu_base = m.vcpu_base + 0x880 * (i % 5)
     app = case["app_id"]
     for x, y, p in case["pre"]:
         c = m.chips[(x, y)].cores[p]
